@@ -105,3 +105,115 @@ def run(prog, rule="R-GROWGUARD", floor=5):
     res.counts["reallocations_with_a_capacity_field"] = n
     res.floor("re-allocations of an array field with a capacity field as length", n, floor)
     return res
+
+
+def run_capsync(prog, rule="R-CAPSYNC", floor=3):
+    """the recorded capacity is the allocated length.  A pointer field X of a record is paired with a capacity field C of the same record
+    when some function allocates X with the length C, or with a local that it also stores into C (`h->namelist = realloc (h->namelist,
+    newstrspace); h->strspace = newstrspace;`).  Every other function that gives X a new block must do the same: the length is C itself,
+    or a value the function also stores into C.  A block allocated with another length (the used size instead of the capacity) while C
+    keeps its value makes every later `used + n > C` test lie (the compaction branch of the name pool: heap write behind the block when
+    the pool is refilled)."""
+    import re
+    res = RuleResult(rule, "a new block for a pointer field that has a capacity field is allocated with that capacity, or the capacity is set to the length used")
+    funcs = [f for f in prog.funcs.values() if f.live is not None and "_dbl." not in f.unit and "_mpf." not in f.unit and f.unit.startswith("qsopt_ex/")]
+    ALLOCF = ("ILLutil_allocrus", "malloc", "calloc", "EGmalloc") + REALLOC
+
+    def norm(t, base):
+        s = re.sub(r"\s+", "", show(strip(t)))
+        s = re.sub(r"\(size_t\)", "", s)
+        return re.sub(r"\b%s\b" % re.escape(base), "$", s) if base else s
+
+    def length_of(call):
+        a = strip(call[3][-1] if (call[1] or "") != "calloc" else call[3][0])
+        while isinstance(a, list) and a and a[0] == "k":
+            a = strip(a[2])
+        if isinstance(a, list) and a and a[0] == "b" and a[1] == "*":
+            for x, y in ((a[2], a[3]), (a[3], a[2])):
+                from ..core import const_of
+                if const_of(y) is not None and const_of(x) is None:
+                    return x
+        return a
+
+    sites = []          # (f, array field, base var, normalised length, loc, {capacity fields the function sets to that length})
+    for f in funcs:
+        local_len = {}
+        dinit = {}
+        for b, i, e in f.elements():
+            if e[0] == "D":
+                for nme, init in e[1]:
+                    if nme.startswith("__") and init is not None:
+                        dinit[nme] = init
+
+        def resolve(t, depth=0):
+            """the size temporaries of the allocation macros: ____sz = (size_t) (1 * n)"""
+            t = strip(t)
+            while isinstance(t, list) and t and t[0] == "k":
+                t = strip(t[2])
+            if is_var(t, kind="l") and t[2] in dinit and depth < 3:
+                return resolve(dinit[t[2]], depth + 1)
+            if isinstance(t, list) and t and t[0] == "b" and t[1] == "*":
+                from ..core import const_of
+                for x, y in ((t[2], t[3]), (t[3], t[2])):
+                    if const_of(y) is not None and const_of(x) is None:
+                        return resolve(x, depth + 1)
+            return t
+        for b, i, e in f.elements():
+            if e[0] == "A" and e[1][1] == "=" and is_var(strip(e[1][2]), kind="l"):
+                for nd in walk(e[1][3]):
+                    if isinstance(nd, list) and nd and nd[0] == "c" and (callee(nd) or "") in ALLOCF and nd[3]:
+                        local_len[strip(e[1][2])[2]] = resolve(length_of(nd))
+        capsets = collections.defaultdict(set)      # normalised value text -> capacity fields assigned that value
+        for b, i, e in f.elements():
+            if e[0] == "A" and e[1][1] == "=":
+                cf = _fld(e[1][2])
+                l = strip(e[1][2])
+                if cf and isinstance(l, list) and is_var(strip(l[1])):
+                    capsets[norm(e[1][3], strip(l[1])[2])].add(cf)
+        for b, i, e in f.elements():
+            if e[0] != "A" or e[1][1] != "=":
+                continue
+            af = _fld(e[1][2])
+            l = strip(e[1][2])
+            if not af or not (isinstance(l, list) and is_var(strip(l[1]))):
+                continue
+            base_ = strip(l[1])[2]
+            ln = None
+            r = strip(e[1][3])
+            if is_var(r, kind="l") and r[2] in local_len:
+                ln = local_len[r[2]]
+            else:
+                for nd in walk(e[1][3]):
+                    if isinstance(nd, list) and nd and nd[0] == "c" and (callee(nd) or "") in ALLOCF and nd[3]:
+                        ln = resolve(length_of(nd))
+            if ln is None:
+                continue
+            ntxt = norm(ln, base_)
+            direct = {_fld(ln)} if _fld(ln) and _fld(ln).split("::")[0] == af.split("::")[0] else set()
+            strong = {c for c in capsets.get(ntxt, ()) if c != af and c.split("::")[0] == af.split("::")[0] and not _fld(ln)
+                      and c.split("::")[1].endswith(("space", "size"))}
+            sites.append((f, af, base_, ntxt, e[2], direct, strong))
+    # a pair needs strong evidence: a site that allocates with a computed length and stores that very length into the capacity field
+    pairs = collections.defaultdict(collections.Counter)
+    for f, af, base_, ntxt, loc, direct, strong in sites:
+        for c in strong:
+            pairs[af][c] += 1
+    res.counts["array_capacity_pairs"] = {a: dict(c) for a, c in sorted(pairs.items())}
+    n = 0
+    for f, af, base_, ntxt, loc, direct, strong in sites:
+        if af not in pairs or not (direct or strong):
+            continue                                   # lengths hidden in macro temporaries / parameters: not decided
+        caps = direct | strong
+        n += 1
+        res.obligations += 1
+        res.nontrivial += 1
+        if caps & set(pairs[af]):
+            res.sample({"site": "%s %s: %s allocated with %s" % (short_loc(loc), f.name, af.split("::")[1], ntxt), "verdict": "capacity %s" % ", ".join(sorted(x.split("::")[1] for x in caps))}, limit=10)
+        else:
+            res.violations.append(Violation(rule, "%s|%s allocated with another length than its capacity" % (f.name.replace("mpq_", ""), af.split("::")[1]), f.name,
+                                            short_loc(loc), "%s gets a block of %s entries, but its capacity field (%s - paired with it at %d other allocation site(s)) is "
+                                            "neither that expression nor set to it here: the recorded capacity no longer says how long the block is" % (
+                                                af, ntxt, ", ".join(sorted(x.split("::")[1] for x in pairs[af])), sum(pairs[af].values()))))
+    res.counts["allocation_sites_of_paired_arrays"] = n
+    res.floor("allocation sites of pointer fields that have a capacity field", n, floor)
+    return res
